@@ -266,6 +266,12 @@ def run(sim):
             lat = sim.draw_choice(LAT_MULT, "latency") * st["interval"]
             sim.event("latency", lat)
             clk.callLater(lat, fire, d, kind == "latency-ok")
+        if sim.draw_bool(0.25, "called_but_pending"):
+            # hand out a Deferred that has already been called back but whose callback chain waits on `d` (no result until `d` fires)
+            sim.probe("call_returned_called_but_pending_deferred")
+            _outer = defer.succeed(None)
+            _outer.addCallback(lambda _ignored, d=d: d)
+            return _outer
         return d
 
     if counted:
